@@ -59,6 +59,10 @@ class Path:
         self.effects = effects  # [AST expr/stmt substituted] in order
         self.lineno = lineno
 
+    def conds_open(self):
+        """conditions that were not decided by constant folding"""
+        return [(t, p) for t, p in self.conds if not (isinstance(t, ast.Constant) and isinstance(t.value, (bool, int)))]
+
     def cond_text(self):
         return " and ".join(("" if pol else "not ") + "(" + unparse(t) + ")" for t, pol in self.conds)
 
@@ -72,9 +76,201 @@ def assigned_names(stmts):
     return out
 
 
-def run_paths(stmts, env=None, max_paths=256, decide=None):
-    """decide(test_ast) -> True/False/None lets the caller prune branches whose test it can evaluate."""
+_OPERATOR_FUNCS = {
+    "add": ast.Add, "sub": ast.Sub, "mul": ast.Mult, "floordiv": ast.FloorDiv, "mod": ast.Mod, "and_": ast.BitAnd,
+    "or_": ast.BitOr, "xor": ast.BitXor, "lshift": ast.LShift, "rshift": ast.RShift, "pow": ast.Pow,
+}
+_OPERATOR_CMPS = {"lt": ast.Lt, "le": ast.LtE, "eq": ast.Eq, "ne": ast.NotEq, "gt": ast.Gt, "ge": ast.GtE}
+_OPERATOR_UNARY = {"neg": ast.USub, "invert": ast.Invert, "inv": ast.Invert, "not_": ast.Not, "pos": ast.UAdd}
+
+
+def operator_call_as_expr(func, args):
+    """operator.add(a, b) -> a + b etc. (`func` is the callee AST); None if not an operator-module function"""
+    name = None
+    if isinstance(func, ast.Attribute) and isinstance(func.value, ast.Name) and func.value.id in ("operator", "_operator"):
+        name = func.attr
+    if name is None:
+        return None
+    name = name.strip("_") if name.startswith("__") else name
+    if name in ("and", "or"):
+        name += "_"
+    if name in _OPERATOR_FUNCS and len(args) == 2:
+        return ast.BinOp(left=args[0], op=_OPERATOR_FUNCS[name](), right=args[1])
+    if name in _OPERATOR_CMPS and len(args) == 2:
+        return ast.Compare(left=args[0], ops=[_OPERATOR_CMPS[name]()], comparators=[args[1]])
+    if name in _OPERATOR_UNARY and len(args) == 1:
+        return ast.UnaryOp(op=_OPERATOR_UNARY[name](), operand=args[0])
+    return None
+
+
+def fold_const(e):
+    """constant-fold comparisons / membership / boolean structure over literal constants; returns an AST"""
+    if isinstance(e, ast.BoolOp):
+        vals = [fold_const(v) for v in e.values]
+        is_and = isinstance(e.op, ast.And)
+        keep = []
+        for v in vals:
+            if isinstance(v, ast.Constant) and isinstance(v.value, (bool, int)) and not isinstance(v.value, str):
+                if bool(v.value) != is_and:
+                    return ast.Constant(value=not is_and)
+                continue
+            keep.append(v)
+        if not keep:
+            return ast.Constant(value=is_and)
+        if len(keep) == 1:
+            return keep[0]
+        return ast.BoolOp(op=e.op, values=keep)
+    if isinstance(e, ast.UnaryOp) and isinstance(e.op, ast.Not):
+        v = fold_const(e.operand)
+        if isinstance(v, ast.Constant) and isinstance(v.value, (bool, int)):
+            return ast.Constant(value=not v.value)
+        return ast.UnaryOp(op=ast.Not(), operand=v)
+    if isinstance(e, ast.Compare) and len(e.ops) == 1:
+        l, r = e.left, e.comparators[0]
+        op = e.ops[0]
+        if isinstance(l, ast.Constant):
+            if isinstance(r, ast.Constant):
+                try:
+                    if isinstance(op, ast.Eq): return ast.Constant(value=l.value == r.value)
+                    if isinstance(op, ast.NotEq): return ast.Constant(value=l.value != r.value)
+                    if isinstance(op, ast.Lt): return ast.Constant(value=l.value < r.value)
+                    if isinstance(op, ast.LtE): return ast.Constant(value=l.value <= r.value)
+                    if isinstance(op, ast.Gt): return ast.Constant(value=l.value > r.value)
+                    if isinstance(op, ast.GtE): return ast.Constant(value=l.value >= r.value)
+                    if isinstance(op, ast.Is): return ast.Constant(value=l.value is r.value)
+                    if isinstance(op, ast.IsNot): return ast.Constant(value=l.value is not r.value)
+                except TypeError:
+                    return e
+            if isinstance(r, (ast.Tuple, ast.List, ast.Set)) and all(isinstance(x, ast.Constant) for x in r.elts):
+                vals = [x.value for x in r.elts]
+                if isinstance(op, ast.In): return ast.Constant(value=l.value in vals)
+                if isinstance(op, ast.NotIn): return ast.Constant(value=l.value not in vals)
+            if isinstance(r, ast.Dict) and all(isinstance(x, ast.Constant) for x in r.keys):
+                vals = [x.value for x in r.keys]
+                if isinstance(op, ast.In): return ast.Constant(value=l.value in vals)
+                if isinstance(op, ast.NotIn): return ast.Constant(value=l.value not in vals)
+    return e
+
+
+class _Fold(ast.NodeTransformer):
+    """applies a caller-supplied rewriting `fold(node) -> node | None` bottom-up, inlines pure-expression callees
+    (lambdas, operator-module functions, single-return helpers, constant-keyed table look-ups) and folds constants"""
+
+    def __init__(self, fold, inline, depth):
+        self.fold, self.inline, self.depth = fold, inline or {}, depth
+
+    def generic_visit(self, node):
+        node = super().generic_visit(node)
+        if self.fold is not None and isinstance(node, ast.expr):
+            r = self.fold(node)
+            if r is not None:
+                node = r
+        return node
+
+    def visit_Lambda(self, node):
+        return node
+
+    def visit_Subscript(self, node):
+        node = self.generic_visit(node)
+        if not isinstance(node, ast.Subscript):
+            return node
+        tab = node.value
+        if isinstance(tab, ast.Name) and isinstance(self.inline.get(tab.id), ast.Dict):
+            tab = self.inline[tab.id]
+        if isinstance(tab, ast.Dict) and isinstance(node.slice, ast.Constant):
+            for k, v in zip(tab.keys, tab.values):
+                if isinstance(k, ast.Constant) and k.value == node.slice.value:
+                    return copy.deepcopy(v)
+        return node
+
+    def visit_Compare(self, node):
+        node = self.generic_visit(node)
+        if not isinstance(node, ast.Compare):
+            return node
+        if len(node.ops) == 1 and isinstance(node.ops[0], (ast.In, ast.NotIn)) and isinstance(node.comparators[0], ast.Name) \
+                and isinstance(self.inline.get(node.comparators[0].id), (ast.Dict, ast.Tuple, ast.List, ast.Set)):
+            node = ast.Compare(left=node.left, ops=node.ops, comparators=[self.inline[node.comparators[0].id]])
+        return fold_const(node)
+
+    def visit_BoolOp(self, node):
+        return fold_const(self.generic_visit(node))
+
+    def visit_UnaryOp(self, node):
+        return fold_const(self.generic_visit(node))
+
+    def visit_IfExp(self, node):
+        node = self.generic_visit(node)
+        if not isinstance(node, ast.IfExp):
+            return node
+        if isinstance(node.test, ast.Constant) and isinstance(node.test.value, (bool, int)):
+            return node.body if node.test.value else node.orelse
+        return node
+
+    def visit_Call(self, node):
+        node = self.generic_visit(node)
+        if not isinstance(node, ast.Call) or node.keywords or any(isinstance(a, ast.Starred) for a in node.args) or self.depth <= 0:
+            return node
+        f = node.func
+        e = operator_call_as_expr(f, node.args)
+        if e is not None:
+            return fold_const(e) if isinstance(e, ast.Compare) else e
+        if isinstance(f, ast.Name) and isinstance(self.inline.get(f.id), ast.Lambda):
+            f = self.inline[f.id]
+        if isinstance(f, ast.Lambda):
+            params = [a.arg for a in f.args.args]
+            if len(params) == len(node.args) and not f.args.kwonlyargs and not f.args.vararg:
+                body = subst(f.body, dict(zip(params, node.args)))
+                return _Fold(self.fold, self.inline, self.depth - 1).visit(body)
+        callee = None
+        if isinstance(f, ast.Name):
+            callee = self.inline.get(f.id)
+        elif isinstance(f, ast.Attribute) and isinstance(f.value, ast.Name) and f.value.id in ("self", "cls"):
+            callee = self.inline.get(f"{f.value.id}.{f.attr}")
+        if isinstance(callee, ast.FunctionDef):
+            params = [a.arg for a in callee.args.args]
+            if params and params[0] in ("self", "cls") and isinstance(f, ast.Attribute):
+                params = params[1:]
+            body = [b for b in callee.body if not (isinstance(b, ast.Expr) and isinstance(b.value, ast.Constant))]
+            if len(params) == len(node.args) and not callee.args.vararg and not callee.args.kwonlyargs:
+                # pure-expression callee: every path is `return E` after constant-decidable tests
+                ps = run_paths(body, env=dict(zip(params, node.args)), fold=self.fold, inline=self.inline, depth=self.depth - 1)
+                if len(ps) == 1 and ps[0].how == "return" and not ps[0].effects and ps[0].ret is not None and not ps[0].conds_open():
+                    return ps[0].ret
+        return node
+
+
+def run_paths(stmts, env=None, max_paths=256, decide=None, inline=None, fold=None, depth=3):
+    """decide(test_ast) -> True/False/None lets the caller prune branches whose test it can evaluate.
+    inline: {name | "self.name": FunctionDef | Lambda | Dict literal}: callees that may be expanded (bounded by `depth`);
+    a statement-level call `x = f(..)` / `return f(..)` / `f(..)` to a FunctionDef is expanded path by path.
+    fold(node) -> node | None: caller-supplied rewriting applied bottom-up to every substituted expression (e.g. to pin
+    `value.operator` to one constant when specialising an interpreter)."""
     results = []
+    folder = _Fold(fold, inline, depth) if (fold is not None or inline) else None
+
+    def F(e):
+        if folder is None or e is None:
+            return e
+        return folder.visit(copy.deepcopy(e))
+
+    def callee_of(call):
+        if not inline or depth <= 0 or not isinstance(call, ast.Call) or call.keywords or \
+                any(isinstance(a, ast.Starred) for a in call.args):
+            return None
+        f = call.func
+        c = None
+        if isinstance(f, ast.Name):
+            c = inline.get(f.id)
+        elif isinstance(f, ast.Attribute) and isinstance(f.value, ast.Name) and f.value.id in ("self", "cls"):
+            c = inline.get(f"{f.value.id}.{f.attr}")
+        if not isinstance(c, ast.FunctionDef):
+            return None
+        params = [a.arg for a in c.args.args]
+        if params and params[0] in ("self", "cls") and isinstance(f, ast.Attribute):
+            params = params[1:]
+        if len(params) != len(call.args) or c.args.vararg or c.args.kwonlyargs:
+            return None
+        return c, dict(zip(params, call.args))
 
     def go(stmts, i, env, conds, effects):
         if len(results) > max_paths:
@@ -84,8 +280,46 @@ def run_paths(stmts, env=None, max_paths=256, decide=None):
             i += 1
             if isinstance(s, (ast.FunctionDef, ast.AsyncFunctionDef, ast.ClassDef, ast.Pass, ast.Import, ast.ImportFrom)):
                 continue
+            # d.setdefault(k, v)  ==  if k not in d: d[k] = v ; then d[k]
+            sd = s.value if isinstance(s, (ast.Assign, ast.Expr)) else None
+            if isinstance(sd, ast.Call) and isinstance(sd.func, ast.Attribute) and sd.func.attr == "setdefault" and \
+                    len(sd.args) == 2 and not sd.keywords:
+                d_, k_, v_ = sd.func.value, sd.args[0], sd.args[1]
+                slot = ast.Subscript(value=d_, slice=k_, ctx=ast.Load())
+                pre = ast.If(test=ast.Compare(left=k_, ops=[ast.NotIn()], comparators=[d_]),
+                             body=[ast.Assign(targets=[ast.Subscript(value=d_, slice=k_, ctx=ast.Store())], value=v_,
+                                              lineno=s.lineno)], orelse=[], lineno=s.lineno)
+                new = [pre]
+                if isinstance(s, ast.Assign):
+                    new.append(ast.Assign(targets=s.targets, value=slot, lineno=s.lineno))
+                stmts = new + stmts[i:]
+                i = 0
+                continue
+            if isinstance(s, (ast.Assign, ast.Return, ast.Expr)) and getattr(s, "value", None) is not None:
+                hit = callee_of(F(subst(s.value, env)))
+                if hit is not None:
+                    callee, penv = hit
+                    body = [b for b in callee.body if not (isinstance(b, ast.Expr) and isinstance(b.value, ast.Constant))]
+                    rest = stmts[i:]
+                    for cp in run_paths(body, env=penv, max_paths=max_paths, decide=decide, inline=inline, fold=fold,
+                                        depth=depth - 1):
+                        if cp.how == "raise":
+                            results.append(Path(conds + cp.conds, env, cp.ret, "raise", effects + cp.effects, s.lineno))
+                            continue
+                        rv = cp.ret if cp.ret is not None else ast.Constant(value=None)
+                        if isinstance(s, ast.Return):
+                            results.append(Path(conds + cp.conds, env, rv, "return", effects + cp.effects, s.lineno))
+                        elif isinstance(s, ast.Expr):
+                            go(rest, 0, env, conds + cp.conds, effects + cp.effects)
+                        else:
+                            tmp = f"__inl{s.lineno}_{len(results)}"
+                            env2 = dict(env)
+                            env2[tmp] = rv
+                            go([ast.Assign(targets=s.targets, value=ast.Name(id=tmp, ctx=ast.Load()), lineno=s.lineno)] + rest,
+                               0, env2, conds + cp.conds, effects + cp.effects)
+                    return
             if isinstance(s, ast.Assign):
-                val = subst(s.value, env)
+                val = F(subst(s.value, env))
                 for t in s.targets:
                     if isinstance(t, ast.Name):
                         env = dict(env)
@@ -142,10 +376,10 @@ def run_paths(stmts, env=None, max_paths=256, decide=None):
                     env = dict(env)
                     env[v.func.value.id] = ast.Dict(keys=keys, values=vals)
                     continue
-                effects = effects + [subst(s.value, env)]
+                effects = effects + [F(subst(s.value, env))]
                 continue
             if isinstance(s, ast.Return):
-                results.append(Path(conds, env, subst(s.value, env) if s.value is not None else None, "return",
+                results.append(Path(conds, env, F(subst(s.value, env)) if s.value is not None else None, "return",
                                     effects, s.lineno))
                 return
             if isinstance(s, ast.Raise):
@@ -164,7 +398,7 @@ def run_paths(stmts, env=None, max_paths=256, decide=None):
                     return
                 continue
             if isinstance(s, ast.If):
-                test = subst(s.test, env)
+                test = F(subst(s.test, env))
                 rest = stmts[i:]
                 verdict = decide(test) if decide is not None else None
                 if verdict is None and isinstance(test, ast.Constant) and isinstance(test.value, (bool, int)):
